@@ -278,7 +278,7 @@ Section Mask.
       post_poll_one rmatch compress sc now d st t pin =
       match pp_front now d t pin with
       | Ok (d3, t3, pl, e12) =>
-        match process_action rmatch compress sc (Nat.mul 64 64) now d3 st t3 pl e12 with
+        match process_action rmatch compress sc (pa_fuel d3) now d3 st t3 pl e12 with
         | Ok (d4, st4, t4, _, evs) => Ok (d4, st4, t4, evs)
         | Exit c s => Exit c s | Abort s => Abort s | MemErr s => MemErr s | Hang s => Hang s
         end
